@@ -15,7 +15,7 @@ SinglesOf(t) == {[t |-> t, slots |-> <<j>>, kinds |-> <<k>>] : j \in Slots(t), k
 
 KindPairs ==
   CASE PairKinds = "same" -> {<<k, k>> : k \in CommentKinds}
-    [] PairKinds = "some" -> {<<"block", "block">>, <<"line", "line">>, <<"line", "block">>, <<"doc", "line">>}
+    [] PairKinds = "some" -> {<<"block", "block">>, <<"line", "line">>, <<"line", "block">>, <<"doc", "line">>, <<"block", "doc">>}
     [] OTHER -> CommentKinds \X CommentKinds
 
 PairsOf(t) ==
